@@ -49,6 +49,18 @@ pub fn for_each_space(ctx: &Ctx, f: &(dyn Fn(&RefPacket, &dyn Fn() -> Value, &mu
     });
     ctx.space(&format!("name sharing: 21 record kinds x every assignment of the 15 names of <= 3 labels over {{a,b}} to {} name slots (question, owner, RDATA names, second owner)", nslots), total, "complete");
     ctx.sample(json!({"kind": "sharing", "slots": nslots, "index": total / 3, "packet": gen::sharing_case(nslots, total / 3)}));
+    // the same letters in different case: compression must not merge names that differ in case
+    let ctotal = gen::case_sharing_size(4);
+    let cshards: Vec<u64> = (0..(ctotal + shard_size - 1) / shard_size).collect();
+    par_shards(ctx, &cshards, |s, t: &mut Tally| {
+        let lo = s * shard_size;
+        let hi = (lo + shard_size).min(ctotal);
+        for idx in lo..hi {
+            let p = gen::case_sharing_case(4, idx);
+            f(&p, &|| json!({"kind": "case", "slots": 4, "index": idx}), t);
+        }
+    });
+    ctx.space("letter case: 21 record kinds x every assignment of the 7 names of <= 2 labels over {a,A} to 4 name slots", ctotal, "complete");
     // straddle family
     let offsets: Vec<usize> = (16360..=16400).collect();
     let cases: Vec<(usize, usize)> = offsets.iter().flat_map(|o| (0..4).map(move |v| (*o, v))).collect();
@@ -71,6 +83,7 @@ pub fn case_packet(case: &Value) -> Option<RefPacket> {
     let g = |k: &str| case[k].as_u64().unwrap_or(0);
     Some(match case["kind"].as_str()? {
         "sharing" => gen::sharing_case(g("slots") as usize, g("index")),
+        "case" => gen::case_sharing_case(g("slots") as usize, g("index")),
         "straddle" => gen::straddle_packet(g("first_at") as usize, g("variant") as usize),
         "big" => gen::big_shared_packet(g("n") as usize, g("each") as usize),
         "packet" => serde_json::from_value(case["packet"].clone()).ok()?,
